@@ -76,6 +76,13 @@ def requests():
         '@send_rr': ('POST', '/v1/peer/<ip>/send/route-refresh', {'afi': 1, 'safi': 1}),
         '@send_bin': ('POST', '/v1/peer/<ip>/send/bin_update', {'binary_data': upd.hex()}),
         '@send_bin2': ('POST', '/v1/peer/<ip>/send/bin_update', {'binary_data': (upd + upd).hex()}),
+        # End-of-RIB (the shortest UPDATE, 23 octets) alone and between two UPDATEs
+        '@send_bin_eor': ('POST', '/v1/peer/<ip>/send/bin_update', {'binary_data': wire.frame(wire.UPDATE, b'\x00\x00\x00\x00').hex()}),
+        '@send_bin_eor3': ('POST', '/v1/peer/<ip>/send/bin_update',
+                           {'binary_data': (upd + wire.frame(wire.UPDATE, b'\x00\x00\x00\x00') + upd).hex()}),
+        # more prefixes than one 4096-octet UPDATE holds: one message, several messages or a refusal - counted as written
+        '@send_huge': ('POST', '/v1/peer/<ip>/send/update',
+                       {'attr': {'1': 0, '2': [[2, [65001]]], '3': '10.0.0.1'}, 'nlri': ['10.%d.%d.1/32' % (i // 256, i % 256) for i in range(1200)]}),
         # an update the agent cannot encode (prefix without a length): must be refused and not counted
         '@send_unencodable': ('POST', '/v1/peer/<ip>/send/update',
                               {'attr': {'1': 0, '2': [[2, [65001]]], '3': '10.0.0.1'}, 'nlri': ['10.9.9.9']}),
@@ -86,7 +93,10 @@ def queued():
     good = {'attr': {1: 0, 2: [(2, [65001])], 3: '10.0.0.1'}, 'nlri': ['10.7.0.0/16'], 'withdraw': []}
     bad = {'attr': {1: 0, 2: [(2, [65001])], 3: '10.0.0.1'}, 'nlri': ['10.9.9.9'], 'withdraw': []}
     return {'@mq:good_update': {'type': 'update', 'msg': good}, '@mq:bad_update': {'type': 'update', 'msg': bad},
-            '@mq:notification': {'type': 'notification', 'msg': {'error': 6, 'sub_error': 4, 'data': b''}}}
+            '@mq:notification': {'type': 'notification', 'msg': {'error': 6, 'sub_error': 4, 'data': b''}},
+            # items the application got wrong: whatever the agent does with them, the KEEPALIVE that triggered the flush was received
+            '@mq:notification_no_subcode': {'type': 'notification', 'msg': {'error': 6}},
+            '@mq:unknown_type': {'type': 'keepalive', 'msg': None}}
 
 
 class Harness(c01.Harness):
